@@ -61,7 +61,9 @@ func c16cRun(x *vmc.X, cfg vmc.Cfg) {
 	self := kid.Peer("0110", 4)
 	edges := n * (n - 1)
 	behs := []string{sim.BAll, sim.BDialFail, sim.BReqFail, sim.BAllThenFail} // at most one peer of the last kind per world
-	seedLists := [][]int{{0}, {0, 1}, {0, 0}, {1, 0, 1}, {-1, 1}, {n - 1}} // -1: peer 0 without addresses
+	seedLists := [][]int{{0}, {0, 1}, {0, 0}, {1, 0, 1}, {-1, 1}, {n - 1}, {0, -100}, {1, 0, -101}} // -1: peer 0 without addresses
+	// -100 / -101: peer 0 / peer 1 names the peers it knows by id only (seed C16-i): a peer first heard of
+	// without an address is still a peer reachable from the seeds and gets exactly one outcome
 	idx := 0
 	quick := x.Tracing() // unused
 	_ = quick
@@ -102,6 +104,11 @@ func c16cRun(x *vmc.X, cfg vmc.Cfg) {
 						e++
 					}
 				}
+				for _, sd := range seeds {
+					if sd <= -100 {
+						w.Peers[ids[-100-sd]].OmitAddrs = true
+					}
+				}
 				if !c16cOne(x, w, ids, seeds, fmt.Sprintf("graph=%0*b behaviours=%d seeds#%d%v", edges, g, bm, si, seeds)) {
 					return
 				}
@@ -127,6 +134,9 @@ func c16cOne(x *vmc.X, w *sim.World, ids []peer.ID, seeds []int, shape string) b
 	reach := map[peer.ID]bool{}
 	var queue []peer.ID
 	for _, s := range seeds {
+		if s <= -100 {
+			continue
+		}
 		if s < 0 {
 			start = append(start, &peer.AddrInfo{ID: ids[0]})
 			continue
